@@ -123,7 +123,7 @@ static void mzd_t_free(mzd_t *M) {
   mzd_t_cache_t *cache = &mzd_cache;
   while (cache) {
     size_t entry = M - cache->mzd;
-#if defined(M4RI_VERIF) && defined(__CPROVER__)
+#if defined(M4RI_VERIF) && defined(M4RI_VERIF_CPROVER)
     /* verification hook: CBMC leaves the difference of pointers into different allocations
      * unconstrained; on a real (flat) address space a slot of another allocation can never lie inside
      * this block, i.e. entry >= 64. Encode exactly that. */
